@@ -226,6 +226,7 @@ func (r *StatusVectorChunk) Unmarshal(rawPacket []byte) error {
 	}
 
 	r.Type = TypeTCCStatusVectorChunk
+	r.SymbolList = nil
 	r.SymbolSize = getNBitsFromByte(rawPacket[0], 1, 1)
 
 	if r.SymbolSize == TypeTCCSymbolSizeOneBit {
@@ -493,6 +494,8 @@ func (t *TransportLayerCC) Unmarshal(rawPacket []byte) error { //nolint:gocognit
 	t.PacketStatusCount = binary.BigEndian.Uint16(rawPacket[headerLength+packetStatusCountOffset:])
 	t.ReferenceTime = get24BitsFromBytes(rawPacket[headerLength+referenceTimeOffset : headerLength+referenceTimeOffset+3])
 	t.FbPktCount = rawPacket[headerLength+fbPktCountOffset]
+	t.PacketChunks = nil
+	t.RecvDeltas = nil
 
 	packetStatusPos := headerLength + packetChunkOffset
 	// counted in int: a status vector chunk can overshoot PacketStatusCount by up to 13,
